@@ -14,20 +14,22 @@ Section Main.
 Hypothesis Hcodec : codec_statement.
 Hypothesis Htotal : compile_total_statement.
 Variable ty : N.
+Variable ver : N.
+Hypothesis Hver : 1 <= ver <= 3.
 
 Definition cinv (E : store) (b : builder) : Prop := cgood E /\ Cstk (elang E) (b_stack b).
 
 Lemma last_opt_snoc {A} (l : list A) x : last_opt (l ++ [x]) = Some x.
-Proof.
+Proof. clear Hver.
   induction l as [|y l IH]; [reflexivity|]. cbn [app].
   destruct (l ++ [x]) eqn:X; [destruct l; discriminate|]. exact IH.
 Qed.
 
 Lemma top_final_one (u : unf) : top_final [u].
-Proof. intros v _. left. reflexivity. Qed.
+Proof. clear Hver. intros v _. left. reflexivity. Qed.
 
 Lemma fcp0_cpl : forall st k bs, shape st k -> fcp0 st bs = cpl k bs.
-Proof.
+Proof. clear Hver.
   induction st as [|u st IH]; intros k bs Hs; [destruct Hs|].
   destruct bs as [|b bs]; [destruct k; reflexivity|]. cbn [fcp0 shape] in *.
   destruct k as [|c k].
@@ -37,12 +39,12 @@ Qed.
 
 (* the empty key *)
 Lemma insert_empty_ok G rem E acc b outo b' r :
-  inv ty G rem E acc b ->
+  inv ver ty G rem E acc b ->
   out_of outo < U64 ->
   lastkey acc = [] ->
   (is_dup acc [] = true -> outo = None) ->
   insert_output b [] outo = (b', r) ->
-  r = Ok tt /\ inv ty G rem E (if is_dup acc [] then acc else ([], out_of outo) :: acc) b' /\
+  r = Ok tt /\ inv ver ty G rem E (if is_dup acc [] then acc else ([], out_of outo) :: acc) b' /\
   b_last b' = b_last b /\ (cinv E b -> cinv E b').
 Proof.
   intros [Hm Hs Htop Hlen Hbud HG Hna Hkb Htrim Htf Hbb] Hout Hk Hdup Hc.
@@ -109,18 +111,18 @@ Proof.
 Qed.
 
 Lemma firstn_app_exact {A} (l1 l2 : list A) n : length l1 = n -> firstn n (l1 ++ l2) = l1.
-Proof. intros <-. rewrite firstn_app, Nat.sub_diag, firstn_all. cbn [firstn]. apply app_nil_r. Qed.
+Proof. clear Hver. intros <-. rewrite firstn_app, Nat.sub_diag, firstn_all. cbn [firstn]. apply app_nil_r. Qed.
 
 (* a non-empty key *)
 Lemma insert_nonempty_ok G rem E acc b b0 bs0 outo b' r :
   let bs := b0 :: bs0 in
-  inv ty G (len bs + rem) E acc b ->
+  inv ver ty G (len bs + rem) E acc b ->
   Forall (fun c => c < 256) bs -> out_of outo < U64 ->
   lex_cmp bs (lastkey acc) <> Lt ->
   (is_dup acc bs = true -> outo = None) ->
   insert_output b bs outo = (b', r) ->
   exists E', r = Ok tt /\
-    inv ty G rem E' (if is_dup acc bs then acc else (bs, out_of outo) :: acc) b' /\
+    inv ver ty G rem E' (if is_dup acc bs then acc else (bs, out_of outo) :: acc) b' /\
     b_last b' = b_last b /\ (cinv E b -> cinv E' b').
 Proof.
   intros bs [Hm Hs Htop Hlen Hbud HG Hna Hkb Htrim Htf Hbb] Hbytes Hout Hcmp Hdup Hc.
@@ -156,7 +158,7 @@ Proof.
     rewrite Hf in Hc.
     destruct (Nat.eqb_spec p (length bs)) as [X|_]; [contradiction|].
     set (b2 := with_len (with_stack b st) (b_len (with_stack b st) + 1)) in *.
-    assert (Hm2 : minv ty E b2) by (eapply minv_frame; [..|exact Hm]; reflexivity).
+    assert (Hm2 : minv ver ty E b2) by (eapply minv_frame; [..|exact Hm]; reflexivity).
     assert (Htf2 : top_final st).
     { intros u Hu'. destruct (shape_top _ _ S1) as (lo & t & Hst & Ht & Hlo).
       destruct (shape_top _ _ Hsh) as (lo' & t' & Hst' & Ht' & Hlo').
@@ -167,7 +169,7 @@ Proof.
       apply (f_equal (@rev bool)) in S8. rewrite !rev_app_distr in S8. cbn [rev app] in S8.
       inversion S8. congruence. }
     destruct (compile_from b2 p) as [b3 r3] eqn:Hcf.
-    destruct (compile_from_ok Hcodec Htotal ty E b2 k (rev acc) p b3 r3 Hm2 Hs1) as
+    destruct (compile_from_ok Hcodec Htotal ty ver Hver E b2 k (rev acc) p b3 r3 Hm2 Hs1) as
       (E' & -> & Hm3 & F1 & F2 & Flen & Fs & Fcase & Ftrim & Fbb & FC); auto.
     { cbn [b2 with_len with_stack b_stack]. unfold len, NODE_MAX in *. lia. }
     cbn [b2 with_len with_stack b_stack b_len b_last] in *.
@@ -239,19 +241,19 @@ Qed.
 
 (* ---------- one accepted call ---------- *)
 Lemma lex_cmp_nil_r k : lex_cmp k [] <> Lt.
-Proof. destruct k; cbn; discriminate. Qed.
+Proof. clear Hver. destruct k; cbn; discriminate. Qed.
 
-Lemma inv_with_last G rem E acc b l : inv ty G rem E acc b -> inv ty G rem E acc (with_last b l).
+Lemma inv_with_last G rem E acc b l : inv ver ty G rem E acc b -> inv ver ty G rem E acc (with_last b l).
 Proof.
   intros [Hm Hs Htop Hlen Hbud HG Hna Hkb Htrim Htf Hbb]. constructor; cbn [with_last b_stack b_len]; auto.
   eapply minv_frame; [..|exact Hm]; reflexivity.
 Qed.
 
 Lemma apply_op_ok G rem E acc b o l' :
-  inv ty G (len (op_key o) + rem) E acc b -> last_ok acc b -> op_ok o ->
+  inv ver ty G (len (op_key o) + rem) E acc b -> last_ok acc b -> op_ok o ->
   spec_call (b_last b) o = (l', Ok tt) ->
   exists E' b', apply_op b o = (b', Ok tt) /\
-    inv ty G rem E' (step_acc (b_last b) acc o) b' /\ last_ok (step_acc (b_last b) acc o) b' /\
+    inv ver ty G rem E' (step_acc (b_last b) acc o) b' /\ last_ok (step_acc (b_last b) acc o) b' /\
     b_last b' = l' /\ (cinv E b -> cinv E' b').
 Proof.
   intros Hinv Hlast (Hkb & Hv) Hsc.
@@ -290,11 +292,11 @@ Proof.
   { unfold step_acc. fold k. rewrite Hdupeq, Hout. reflexivity. }
   rewrite Hacc'.
   destruct (insert_output (with_last b (Some k)) k outo) as [b' r] eqn:Hio.
-  assert (Hres : exists E', r = Ok tt /\ inv ty G rem E' (if is_dup acc k then acc else (k, out_of outo) :: acc) b' /\
+  assert (Hres : exists E', r = Ok tt /\ inv ver ty G rem E' (if is_dup acc k then acc else (k, out_of outo) :: acc) b' /\
                             b_last b' = Some k /\ (cinv E b -> cinv E' b')).
   { destruct k as [|b0 bs0] eqn:Hk.
     - assert (Hlk : lastkey acc = []) by (destruct (lastkey acc); [reflexivity|cbn in Hcmp; congruence]).
-      assert (Hinv0 : inv ty G rem E acc (with_last b (Some []))).
+      assert (Hinv0 : inv ver ty G rem E acc (with_last b (Some []))).
       { destruct Hinv1 as [A1 A2 A3 A4 A5 A6 A7 A8 A9 A10 A11]. constructor; auto. }
       destruct (insert_empty_ok G rem E acc _ outo b' r Hinv0) as (Hr & Hi & Hl & HC); auto; [lia|].
       exists E. auto.
@@ -307,10 +309,10 @@ Qed.
 
 (* ---------- the call loop ---------- *)
 Lemma run_extend_ok : forall ops G rem E acc b,
-  inv ty G (key_bytes (map op_key ops) + rem) E acc b -> last_ok acc b -> Forall op_ok ops ->
+  inv ver ty G (key_bytes (map op_key ops) + rem) E acc b -> last_ok acc b -> Forall op_ok ops ->
   Forall (fun r => r = Ok tt) (spec_calls (b_last b) ops) ->
   exists E' acc' b', run_extend b ops = (b', Ok tt) /\
-    inv ty G rem E' acc' b' /\ rev acc' = spec_content (b_last b) ops acc /\
+    inv ver ty G rem E' acc' b' /\ rev acc' = spec_content (b_last b) ops acc /\
     (cinv E b -> cinv E' b').
 Proof.
   induction ops as [|o ops IH]; intros G rem E acc b Hinv Hlast Hok Hcalls.
@@ -318,7 +320,7 @@ Proof.
   - cbn [spec_calls] in Hcalls. destruct (spec_call (b_last b) o) as [l' x] eqn:Hsc.
     inversion Hcalls as [|? ? Hx Hrest]; subst. inversion Hok as [|? ? Ho Hoks]; subst.
     cbn [map key_bytes fold_right] in Hinv.
-    assert (Hinv' : inv ty G (len (op_key o) + (key_bytes (map op_key ops) + rem)) E acc b).
+    assert (Hinv' : inv ver ty G (len (op_key o) + (key_bytes (map op_key ops) + rem)) E acc b).
     { destruct Hinv as [A1 A2 A3 A4 A5 A6 A7 A8 A9 A10 A11]. constructor; auto; unfold key_bytes in *; lia. }
     destruct (apply_op_ok G _ E acc b o l' Hinv' Hlast Ho Hsc) as (E1 & b1 & Hap & Hi1 & Hl1 & Hbl1 & HC1).
     cbn [run_extend]. rewrite Hap. subst l'.
